@@ -10,7 +10,8 @@ namespace CashewsVerif.KeyModel
 
 abbrev Str := List Char
 
-/-- the value alphabet of the property: str, int, bool, None, bytes, tuples, dicts (nested freely) -/
+/-- the value alphabet of the property: str, int, bool, None, bytes, tuples, dicts (nested freely), and
+sets / frozensets (the list of the elements in the order Python iterates them, distinct) -/
 inductive PyVal where
   | str (s : Str)
   | int (i : Int)
@@ -19,6 +20,7 @@ inductive PyVal where
   | bytes (bs : List Nat)
   | tuple (vs : List PyVal)
   | dict (kvs : List (Str × PyVal))
+  | set (vs : List PyVal)
   deriving Repr, Inhabited
 
 abbrev Dict := List (Str × PyVal)
@@ -95,13 +97,22 @@ def insKey (e : Str × Str) : List (Str × Str) → List (Str × Str)
 /-- `sorted(value.items())` restricted to what it can compare: the (distinct) keys -/
 def sortKey (l : List (Str × Str)) : List (Str × Str) := l.foldr insKey []
 
+/-- insertion into a sorted list of texts -/
+def insStr (e : Str) : List Str → List Str
+  | [] => [e]
+  | x :: r => if e < x then e :: x :: r else x :: insStr e r
+
+/-- `sorted(texts)` (Python compares `str` by code point, so does `List Char`) -/
+def sortStr (l : List Str) : List Str := l.foldr insStr []
+
 /-- `str(int)` -/
 def intText (i : Int) : Str := i.repr.toList
 
 mutual
   /-- `_ReplaceFormatter._type_format` (the value of a field on the `str.format` fast path):
   str as is, bool lower-case, bytes utf-8 or hex, tuple joined by ':', dict sorted `k:v` joined by ':',
-  everything else `str(value)` — so `None` gives `"None"` -/
+  set / frozenset: the *sorted* texts of the elements joined by ':' (`_decode_set`, D50: equal sets are
+  one bound argument whatever order they iterate in), everything else `str(value)` — so `None` gives `"None"` -/
   def typeFmt : PyVal → Str
     | .str s => s
     | .int i => intText i
@@ -110,6 +121,7 @@ mutual
     | .bytes bs => decodeBytes bs
     | .tuple vs => joinColon (fmtList vs)
     | .dict kvs => joinColon ((sortKey (fmtItems kvs)).map fun kv => kv.1 ++ ':' :: kv.2)
+    | .set vs => joinColon (sortStr (fmtList vs))
   /-- `_ReplaceFormatter._format_field` (container elements, and fields on the slow path):
   `None` gives `""`, everything else `_type_format` -/
   def fmtField : PyVal → Str
@@ -120,6 +132,7 @@ mutual
     | .bytes bs => decodeBytes bs
     | .tuple vs => joinColon (fmtList vs)
     | .dict kvs => joinColon ((sortKey (fmtItems kvs)).map fun kv => kv.1 ++ ':' :: kv.2)
+    | .set vs => joinColon (sortStr (fmtList vs))
   def fmtList : List PyVal → List Str
     | [] => []
     | v :: r => fmtField v :: fmtList r
@@ -184,7 +197,7 @@ def separated (t : Tmpl) : Bool := sepAux false t
 
 /-- Python's `type(v)` -/
 inductive PyType where
-  | str | int | bool | none | bytes | tuple | dict
+  | str | int | bool | none | bytes | tuple | dict | set
   deriving DecidableEq, Repr
 
 def PyVal.type : PyVal → PyType
@@ -195,6 +208,7 @@ def PyVal.type : PyVal → PyType
   | .bytes _ => .bytes
   | .tuple _ => .tuple
   | .dict _ => .dict
+  | .set _ => .set
 
 /-! ## signatures and binding — `inspect.Signature._bind`, `BoundArguments.apply_defaults` -/
 
@@ -367,5 +381,29 @@ def withCtx (ctx : Ctx) (vals : Dict) : Dict :=
 /-- `get_cache_key(func, template, args, kwargs)`; `none` = `TypeError` from `bind` -/
 def cacheKey (sig : Sig) (t : Tmpl) (ctx : Ctx) (c : Call) : Option Str :=
   (callValues sig c).map fun vals => render t (withCtx ctx vals)
+
+/-! ## what the decorators derive from a template -/
+
+def SELF : Str := ['s', 'e', 'l', 'f']
+
+/-- `noself(decorator)(...)` without `key=`:
+`kwargs["key"] = get_cache_key_template(method, exclude_parameters=("self",))` — the generated template
+without the parameter whose name *is* `self` -/
+def noselfTemplate (mod name qual : Str) (sig : Sig) : Tmpl := autoTemplate mod name qual [SELF] sig
+
+/-- `get_cache_key_template(func, key, prefix)`: `f"{prefix}:{key}"` when a prefix is given -/
+def withPrefix (pfx : Str) (t : Tmpl) : Tmpl :=
+  if pfx = [] then t else .lit (pfx ++ [':']) :: t
+
+/-- the key under which a cache decorator (`cache` / `early` / `soft` ...) stores the result of a call:
+`get_cache_key(func, get_cache_key_template(func, key=key, prefix=prefix), args, kwargs)` -/
+def decoratorKey (sig : Sig) (pfx : Str) (t : Tmpl) (ctx : Ctx) (c : Call) : Option Str :=
+  cacheKey sig (withPrefix pfx t) ctx c
+
+/-- the single-flight key of `thunder_protection(key=key)` (concurrent calls with the same key await one
+execution): `get_cache_key(func, get_cache_key_template(func, key=key), args, kwargs)` — the same template,
+no prefix, no exclusions -/
+def flightKey (sig : Sig) (t : Tmpl) (ctx : Ctx) (c : Call) : Option Str :=
+  cacheKey sig t ctx c
 
 end CashewsVerif.KeyModel
